@@ -283,7 +283,7 @@ func Build(spec Spec) *Built {
 					ppo = b.randAllow(r, allowPool)
 				}
 				afn := &Func{Pkg: d, Name: "ViaAlias", Recv: t, TestOnly: coin(1, 2), PkgOnly: apo, File: fapi}
-				fapi.Decls = append(fapi.Decls, &Node{Fn: afn, Doc: fnDoc(afn), Pre: []*Line{b.line("func (r " + an + ") ViaAlias() {")}, Post: []*Line{b.line("}")}})
+				fapi.Decls = append(fapi.Decls, &Node{Fn: afn, Doc: fnDoc(afn), Pre: []*Line{b.tl("func (r %T) ViaAlias() {", aliasRecv(t, an))}, Post: []*Line{b.line("}")}})
 				env.AliasM = afn
 				pfn := &Func{Pkg: d, Name: "ViaParen", Recv: t, TestOnly: coin(1, 2), PkgOnly: ppo, File: fapi}
 				fapi.Decls = append(fapi.Decls, &Node{Fn: pfn, Doc: fnDoc(pfn), Pre: []*Line{b.tl("func (r (*%T)) ViaParen() {", refT(t, SubRecv))}, Post: []*Line{b.line("}")}})
@@ -1150,6 +1150,13 @@ func exoticLineDirectiveIgnoreInside(x *$T) {
 	}
 	n.Pin = f.Name
 	f.Decls = append(f.Decls, n)
+}
+
+// aliasRecv: the receiver type of a method, spelled through an alias of t declared in t's own package.
+func aliasRecv(t *Type, alias string) *Use {
+	u := refT(t, SubRecv)
+	u.SpellAs = alias
+	return u
 }
 
 func exportedName(n string) bool { return n != "" && n[0] >= 'A' && n[0] <= 'Z' }
